@@ -20,6 +20,11 @@ using namespace c13;
 typedef __float128 f128;
 
 static inline f128 fabs128 (f128 x) { return x < 0 ? -x : x; }
+static inline long double fabs128 (long double x) { return x < 0 ? -x : x; }
+// wide arithmetic of the transform oracles: products and short sums of float data are exact in the
+// 64-bit significand of long double; double data needs __float128 (113 bits)
+template <class S> struct Wide { typedef f128 type; };
+template <> struct Wide<float> { typedef long double type; };
 
 // ================================================================== closest_on_box_lattice
 enum { CP_EMPTY, CP_INT_UNIQUE, CP_INT_TIE, CP_SURFACE, CP_OUTSIDE, CP_N };
@@ -142,6 +147,12 @@ cpob_float (Ctx& c, uint64_t gidx, unsigned cls)
                 bool upper = r.coin ();
                 p[a] = tied ? (upper ? mx[a] - (T) t * s : mn[a] + (T) t * s) : (T) ((mn[a] + mx[a]) / 2);
             }
+            if (r.coin ())
+            {
+                // near tie: one of the tied coordinates moved by a few units in the last place
+                int a = (int) (r.u64 () % 3);
+                for (int k = (int) r.range (1, 3); k > 0; --k) p[a] = std::nextafter (p[a], r.coin () ? mx[a] : mn[a]);
+            }
             break;
         }
         case 2: {
@@ -225,7 +236,8 @@ cpob_float (Ctx& c, uint64_t gidx, unsigned cls)
     double ratio = (double) ((dist / dmin - 1) / (f128) eps_of<T>::value);
     c.worst (std::is_same<T, float>::value ? "closestPointOnBox.float.excess_over_min_distance_in_eps" : "closestPointOnBox.double.excess_over_min_distance_in_eps", ratio, gidx, [&] { return desc ("worst"); });
     // the library compares the ROUNDED differences p-min, max-p (relative error eps/2 each), so a face whose exact
-    // distance exceeds the minimum by a relative ~eps may be chosen.  Bound: 16 eps (observed worst <= 1)
+    // distance exceeds the minimum by a relative ~eps may be chosen.  Bound: 16 eps (worst observed over 2e8 cases
+    // incl. 1.25e7 near ties per type: 0.5 eps)
     if (ratio > 16.0) c.fail (key, gidx, [&] { return desc ("a nearer face exists"); });
 }
 static void
@@ -538,48 +550,51 @@ gen_float_case (Rng& r, unsigned cls, Box<Vec3<S>>& b, Matrix44<T>& m)
     if (cls == 6 && r.coin ()) m[3][(int) (r.u64 () % 3)] = 0;
 }
 // Tolerance constant of the affine path.  Each face is translation + 3 products accumulated in S:
-// |error| <= (3 roundings of the sum + 1 of each product + 1 of each (S)m cast) * eps/2 * sum|terms| < 4 eps sum|terms|.
-// Calibrated: worst observed ratio |got-exact| / (eps*sum|terms|) over 2e8 cases = see report; bound 16.
-static const double TOL_AFFINE = 16.0;
+// |error| <= (3 roundings of the sum + 1 of each product + 1 of each (S)m cast) * eps/2 * sum|terms| < 3 eps sum|terms|.
+// Calibrated on the pristine tree: worst observed |got-exact| / (eps*sum|terms|) over 4e7 cases (1e7 per
+// element-type combination, 8 scale classes) = 2.07 (f,d), 1.81 (d,d), 1.81 (d,f), 1.80 (f,f); bound = 24 >= 8 x 2.07.
+static const double TOL_AFFINE = 24.0;
 template <class S, class T> static void
 tfa_case (Ctx& c, uint64_t gidx, unsigned cls)
 {
+    typedef typename Wide<S>::type W;
     Rng          r = c.rng (gidx);
     Box<Vec3<S>> b;
     Matrix44<T>  m;
     gen_float_case<S, T> (r, cls, b, m);
     const double eps = eps_of<S>::value;
-    f128         lo[3], hi[3], tol[3];
+    W         lo[3], hi[3], tol[3];
     for (int i = 0; i < 3; ++i)
     {
-        f128 sum = fabs128 ((f128) m[3][i]);
-        for (int j = 0; j < 3; ++j) sum += fabs128 ((f128) m[j][i]) * std::max (fabs128 ((f128) b.min[j]), fabs128 ((f128) b.max[j]));
-        tol[i] = sum * (f128) eps;
+        W sum = fabs128 ((W) m[3][i]);
+        for (int j = 0; j < 3; ++j) sum += fabs128 ((W) m[j][i]) * std::max (fabs128 ((W) b.min[j]), fabs128 ((W) b.max[j]));
+        tol[i] = sum * (W) eps;
         for (int corner = 0; corner < 8; ++corner)
         {
-            f128 x = (f128) m[3][i];
-            for (int j = 0; j < 3; ++j) x += ((corner >> j) & 1 ? (f128) b.max[j] : (f128) b.min[j]) * (f128) m[j][i];
+            W x = (W) m[3][i];
+            for (int j = 0; j < 3; ++j) x += ((corner >> j) & 1 ? (W) b.max[j] : (W) b.min[j]) * (W) m[j][i];
             if (corner == 0 || x < lo[i]) lo[i] = x;
             if (corner == 0 || x > hi[i]) hi[i] = x;
         }
     }
     // images of 32 points of the box (exact)
-    f128 img[32][3];
+    // (long double: its 2^-64 relative rounding is 1/4096 of eps(double), far inside the slack)
+    long double img[32][3];
     for (int k = 0; k < 32; ++k)
     {
-        f128 p[3];
+        long double p[3];
         for (int j = 0; j < 3; ++j)
         {
-            unsigned w = (unsigned) (r.u64 () % 8);
-            f128     u = w == 0 ? 0 : w == 1 ? 1 : (f128) r.uniform ();
-            p[j]       = (f128) b.min[j] + u * ((f128) b.max[j] - (f128) b.min[j]);
-            if (p[j] < (f128) b.min[j]) p[j] = (f128) b.min[j];
-            if (p[j] > (f128) b.max[j]) p[j] = (f128) b.max[j];
+            unsigned    w = (unsigned) (r.u64 () % 8);
+            long double u = w == 0 ? 0 : w == 1 ? 1 : (long double) r.uniform ();
+            p[j]          = (long double) b.min[j] + u * ((long double) b.max[j] - (long double) b.min[j]);
+            if (p[j] < (long double) b.min[j]) p[j] = (long double) b.min[j];
+            if (p[j] > (long double) b.max[j]) p[j] = (long double) b.max[j];
         }
         for (int i = 0; i < 3; ++i)
         {
-            img[k][i] = (f128) m[3][i];
-            for (int j = 0; j < 3; ++j) img[k][i] += p[j] * (f128) m[j][i];
+            img[k][i] = (long double) m[3][i];
+            for (int j = 0; j < 3; ++j) img[k][i] += p[j] * (long double) m[j][i];
         }
     }
     const std::string wname = std::string ("transform.affine.") + TN<S>::s () + TN<T>::s () + ".face_error_over_eps_sum_terms";
@@ -598,8 +613,8 @@ tfa_case (Ctx& c, uint64_t gidx, unsigned cls)
         };
         for (int i = 0; i < 3; ++i)
         {
-            f128   el = fabs128 ((f128) res.min[i] - lo[i]), eh = fabs128 ((f128) res.max[i] - hi[i]);
-            f128   em = el > eh ? el : eh;
+            W   el = fabs128 ((W) res.min[i] - lo[i]), eh = fabs128 ((W) res.max[i] - hi[i]);
+            W   em = el > eh ? el : eh;
             double ratio;
             if (tol[i] == 0) ratio = em == 0 ? 0.0 : 1e300;
             else ratio = (double) (em / tol[i]);
@@ -608,8 +623,8 @@ tfa_case (Ctx& c, uint64_t gidx, unsigned cls)
             if (ratio > TOL_AFFINE) c.fail (key, gidx, [&] { return desc ("face differs from the exact extreme of the 8 corner images", i, ratio); });
             for (int k = 0; k < 32; ++k)
             {
-                f128 slack = tol[i] * (f128) TOL_AFFINE;
-                if (img[k][i] < (f128) res.min[i] - slack || img[k][i] > (f128) res.max[i] + slack)
+                long double slack = (long double) tol[i] * TOL_AFFINE;
+                if (img[k][i] < (long double) res.min[i] - slack || img[k][i] > (long double) res.max[i] + slack)
                 {
                     c.fail (key + ":interior_point_outside", gidx, [&] { return desc ("image of a point of the box lies outside the result", i, (double) img[k][i]); });
                     break;
@@ -636,14 +651,16 @@ sub_tfa (Ctx& c, uint64_t idx)
 }
 MON_SUB_IDX (sub_tfa, "transform_float_affine", 1000000, 40000000)
     .req ({"moderate", "small_box_far_from_origin", "huge_1e15", "tiny_1e-12", "mixed_scales_per_axis", "rotation", "zeros_and_negative_scales", "degenerate_box"})
-    .over ("random float/double boxes x float/double affine matrices (8 scale/structure classes), all four overloads: each face within 16 eps * (|translation| + sum |m_ji| max|box_j|) of the exact (__float128) extreme over the 8 corner images; images of 32 points of the box (incl. faces/corners) inside the result within the same slack; distinct = hash of box and matrix");
+    .over ("random float/double boxes x float/double affine matrices (8 scale/structure classes), all four overloads: each face within 24 eps * (|translation| + sum |m_ji| max|box_j|) of the exact (__float128) extreme over the 8 corner images; images of 32 points of the box (incl. faces/corners) inside the result within the same slack; distinct = hash of box and matrix");
 
 // Projective path: x = fl(sum of 4 terms), w = fl(sum of 4 terms), q = fl(x/w).
-// |q - X/W| <= eps * C * ( sum|x terms| / |W| + |X| * sum|w terms| / W^2 );  calibrated, bound 16 (see report)
+// |q - X/W| <= eps * C * ( sum|x terms| / |W| + |X| * sum|w terms| / W^2 ).  Calibrated on the pristine tree:
+// worst observed ratio over 4e7 cases = 1.18 (d,f), 1.13 (d,d), 1.05 (f,f), 0.71 (f,d); bound = 16 >= 8 x 1.18.
 static const double TOL_PROJ = 16.0;
 template <class S, class T> static void
 tfp_case (Ctx& c, uint64_t gidx, unsigned cls)
 {
+    typedef typename Wide<S>::type W_;
     Rng          r = c.rng (gidx);
     Box<Vec3<S>> b;
     Matrix44<T>  m;
@@ -658,24 +675,24 @@ tfp_case (Ctx& c, uint64_t gidx, unsigned cls)
     m[3][3]         = (T) ((negw ? -1.0 : 1.0) * r.uniform (0.5, 2.0));
     if (m[0][3] == 0 && m[1][3] == 0 && m[2][3] == 0 && m[3][3] == 1) m[3][3] = (T) 1.5;
     const double eps = eps_of<S>::value;
-    f128         lo[3], hi[3], tol[3] = {0, 0, 0};
+    W_         lo[3], hi[3], tol[3] = {0, 0, 0};
     bool         illc = false;
     for (int corner = 0; corner < 8; ++corner)
     {
-        f128 v[3], W = (f128) m[3][3], sw = fabs128 (W);
+        W_ v[3], W = (W_) m[3][3], sw = fabs128 (W);
         for (int j = 0; j < 3; ++j)
         {
-            v[j] = (corner >> j) & 1 ? (f128) b.max[j] : (f128) b.min[j];
-            W += v[j] * (f128) m[j][3];
-            sw += fabs128 (v[j] * (f128) m[j][3]);
+            v[j] = (corner >> j) & 1 ? (W_) b.max[j] : (W_) b.min[j];
+            W += v[j] * (W_) m[j][3];
+            sw += fabs128 (v[j] * (W_) m[j][3]);
         }
-        if (fabs128 (W) < (f128) 0.02 * sw || (W < 0) != negw) illc = true;
+        if (fabs128 (W) < (W_) 0.02 * sw || (W < 0) != negw) illc = true;
         for (int i = 0; i < 3; ++i)
         {
-            f128 X = (f128) m[3][i], sx = fabs128 (X);
-            for (int j = 0; j < 3; ++j) { X += v[j] * (f128) m[j][i]; sx += fabs128 (v[j] * (f128) m[j][i]); }
-            f128 q = X / W;
-            f128 t = (f128) eps * (sx / fabs128 (W) + fabs128 (X) * sw / (W * W));
+            W_ X = (W_) m[3][i], sx = fabs128 (X);
+            for (int j = 0; j < 3; ++j) { X += v[j] * (W_) m[j][i]; sx += fabs128 (v[j] * (W_) m[j][i]); }
+            W_ q = X / W;
+            W_ t = (W_) eps * (sx / fabs128 (W) + fabs128 (X) * sw / (W * W));
             if (t > tol[i]) tol[i] = t;
             if (corner == 0 || q < lo[i]) lo[i] = q;
             if (corner == 0 || q > hi[i]) hi[i] = q;
@@ -690,8 +707,8 @@ tfp_case (Ctx& c, uint64_t gidx, unsigned cls)
         std::string  key   = std::string (ov_name[ov]) + "." + combo_name<S, T> () + ":projective_float_" + fl_cls[cls] + ((ov & 1) ? std::string (":") + state_name[state] : std::string ());
         for (int i = 0; i < 3; ++i)
         {
-            f128   el = fabs128 ((f128) res.min[i] - lo[i]), eh = fabs128 ((f128) res.max[i] - hi[i]);
-            f128   em = el > eh ? el : eh;
+            W_   el = fabs128 ((W_) res.min[i] - lo[i]), eh = fabs128 ((W_) res.max[i] - hi[i]);
+            W_   em = el > eh ? el : eh;
             double ratio;
             if (tol[i] == 0) ratio = em == 0 ? 0.0 : 1e300;
             else ratio = (double) (em / tol[i]);
